@@ -98,7 +98,23 @@ def _emit_sites(ctx: Ctx, what: str) -> None:
 def publish_after_compute(ctx: Ctx) -> None:
     """Every write into persistent state is a designated writer or a single store of a fully computed value."""
     _emit_sites(ctx, "write")
-    # validity markers are written after the structure they validate
+    _marker_obligations(ctx)
+
+
+def _marker_obligations(ctx: Ctx) -> None:
+    # validity markers are written after the structure they validate - in every function that writes the marker
+    ctxc = ctx.repo.cls("xsdata.formats.dataclass.context:XmlContext")
+    for m in ctxc.methods.values():
+        if m.name in CONSTRUCTION or m.name == "reset":
+            continue
+        marks = [st for st, tgt, v in stores(m.node) if is_self_attr(tgt, "sys_modules")]
+        if not marks:
+            continue
+        g0 = build_cfg(m.node)
+        pubs = [g0.node_of(st) for st, tgt, v in stores(m.node) if is_self_attr(tgt, "xsi_cache")]
+        ok0 = bool(pubs) and all(g0.must_pass(g0.entry, g0.node_of(mk).id, [p_.id for p_ in pubs if p_]) for mk in marks)
+        ctx.ob(f"XmlContext.{m.name}: the validity marker sys_modules is stored only after the index it validates was published (in the same function)", ok0, at=m, node=marks[0], construct=f"marker order {m.name}",
+               msg="the marker becomes valid before the index is rebuilt: other threads skip the rebuild and read the stale / empty index (no class found, xsi:type ignored)")
     b = ctx.repo.func("xsdata.formats.dataclass.context:XmlContext.build_xsi_cache")
     g = build_cfg(b.node)
     pub = [g.node_of(st) for st, tgt, v in stores(b.node) if is_self_attr(tgt, "xsi_cache")]
@@ -415,6 +431,7 @@ share("C14", "C14.R7", who_may_write_map)
 def shared_write_patterns(ctx: Ctx) -> None:
     """Every mutation site of state shared between threads is an atomic publish or a designated (single-threaded) writer."""
     _emit_sites(ctx, "concurrent write")
+    _marker_obligations(ctx)
     # no lock exists in the library: the claim rests on the publish pattern alone
     locks = [fi.qual for fi in ctx.repo.funcs_in("xsdata.formats") for c in calls_in(fi.node) if unparse(c.func).endswith(("Lock", "RLock"))]
     ctx.note("locks", locks)
